@@ -47,7 +47,8 @@ static void body_comp(void) {
     int entry = vx_choose(3);
     pvec_t p; if (entry == 1) { p = pvec_base(0); p.strategy = 0; p.windowLog = 0; p.level = PV_LEVELS[vx_choose(16)]; } else p = pvec_choose(0);
     seg_t segs[4]; int base = vx_choose(2); int asz = shape_alphabet_size(0);
-    for (int i = 0; i < 4; i++) { int d = vx_deviate(asz + 1); segs[i] = d ? shape_alphabet(d - 1, 0) : BASES[base][i]; }
+    int segdev = (int)vx_opt_int("--segdev", 4);
+    for (int i = 0; i < 4; i++) { int d = (i < segdev) ? vx_deviate(asz + 1) : 0; segs[i] = d ? shape_alphabet(d - 1, 0) : BASES[base][i]; }
     size_t W = pvec_window(&p); if (!W) W = 1024; size_t B = pvec_block(&p); if (B > W) B = W;
     size_t n = shape_render(segs, 4, W, B, 48, g_src, 450, 0);
     char sdesc[120], pdesc[256]; shape_describe(segs, 4, sdesc, sizeof sdesc); pvec_describe(&p, pdesc, sizeof pdesc);
